@@ -4,5 +4,5 @@ Extraction Language OCaml.
 Extraction "model.ml" tmarshal tdec tdec_full tdec_alloc tread_size tread_env tread_ids twkb_ok wf_twkb wf_twkb_noring wf_twkb_xyring must_reject
   tolerated expected_info geom_eqb info_eqb
   quant dequant quant_geom marshal_f unmarshal_f expected_geom rounding_ok has_tie ideal_dequant eff_prec
-  run parse_headers is_empty geom_type geom_ct uv_enc sv_enc uv_dec sv_dec
+  run parse_headers is_empty geom_type geom_ct uv_enc sv_enc uv_dec sv_dec wrap64
   N.add N.mul N.of_nat N.to_nat Z.of_N Z.to_N Z.add Z.mul Z.opp Z.of_nat Z.to_nat.
